@@ -427,6 +427,25 @@ fn run_solve(kv: &HashMap<String, String>) -> String {
                 Some((a, b)) => out.push_str(&format!("span {} {}\n", hx(a), hx(b))),
                 None => out.push_str("span none\n"),
             }
+            // sol(t_i) against every stored sample (t_i, y_i)
+            if sol.continuous_sol.is_some() {
+                let mut maxdev = 0.0f64;
+                let mut fails = 0usize;
+                for (ti, yi) in sol.t.iter().zip(sol.y.iter()) {
+                    match sol.sol(*ti) {
+                        Ok(v) => {
+                            for (a, b) in v.iter().zip(yi.iter()) {
+                                let dlt = (a - b).abs();
+                                if dlt > maxdev || dlt.is_nan() {
+                                    maxdev = dlt;
+                                }
+                            }
+                        }
+                        Err(_) => fails += 1,
+                    }
+                }
+                out.push_str(&format!("selfsol fails={} maxdev={}\n", fails, hx(maxdev)));
+            }
             for q in &query {
                 match sol.sol(*q) {
                     Ok(v) => out.push_str(&format!("sol {} ok {}\n", hx(*q), hxlist(&v))),
